@@ -65,6 +65,9 @@ where
         let mut k = 0;
         loop {
             if v.deg() == 0 {
+                if t.deg() == 0 {
+                    break 'outer;
+                }
                 let mut raw = vec![Int::zero(); t.deg() / pusize + 1];
                 for i in 0..=t.deg() / pusize {
                     raw[i] = t.coef_at(pusize * i);
